@@ -836,6 +836,8 @@ def rule_single_use_iterators(ctx, chk, rule, modules=None):
         if isinstance(e, ast.GeneratorExp):
             return True
         if isinstance(e, ast.Call):
+            if call_name(e) == "iter":
+                return False          # an explicit iter(xs) is made to be consumed step by step (`any(...)` up to a title line, then the rest)
             if call_name(e) in ITER_MAKERS:
                 return True
             for g in ctx.cg.resolve(e, f):
@@ -1191,9 +1193,10 @@ def rule_no_keyed_collapse(ctx, chk, rule, only=None):
                 for v, u in L.update.items():
                     if u is not None and u[0] == "setitem" and u[1] == ("acc", lid, v) and u[2] in parts and L.init.get(v) in (("dict", ()), ("call", "dict", (), ())):
                         used = any(t == ("res", lid, v) for t in _terms_of_kernel(k))
-                        if used:
+                        if used and _reads_more_than(u[3], el, u[2]):
                             keyed = (v, u[2])
-            elif getattr(L, "ckind", None) == "dict" and L.elt is not None and L.elt[0] == "tup" and len(L.elt[1]) == 2 and L.elt[1][0] in parts:
+            elif getattr(L, "ckind", None) == "dict" and L.elt is not None and L.elt[0] == "tup" and len(L.elt[1]) == 2 and L.elt[1][0] in parts \
+                    and _reads_more_than(L.elt[1][1], el, L.elt[1][0]):
                 keyed = ("<dict comprehension>", L.elt[1][0])
             if keyed:
                 hits += 1
@@ -1245,6 +1248,24 @@ def rule_no_keyed_collapse(ctx, chk, rule, only=None):
 def show_(t):
     from ..symx import show
     return show(t)
+
+
+def _reads_more_than(value, el, key):
+    """The value stored under `key` reads something of the element besides the key itself (a table whose entry is a function of its
+    key alone - the rounded value of successor t under key t - loses nothing when two transitions share the key)."""
+    from ..symx import subst
+    marker = ("$key$",)
+    stripped = subst(value, lambda x: marker if x == key else None)
+    found = []
+
+    def walk(x):
+        if isinstance(x, tuple):
+            if x == el:
+                found.append(x)
+            for y in x:
+                walk(y)
+    walk(stripped)
+    return bool(found)
 
 
 def _terms_of_kernel(k):
